@@ -349,7 +349,13 @@ func cmdCheck(args []string) int {
 				if o.Result == "sat" {
 					reproduced = c.tryReplay(res, o, dir)
 				}
-				if baseline[o.Name] || reproduced {
+				if c.staleContract && !reproduced {
+					// stale contract (see safeEval): broken check, not a violation
+					nUndecided++
+					broken = true
+					r.Status = "undecided"
+					fmt.Fprintf(os.Stderr, "UNDECIDED %s: obligation %s is %s but the contract of its function names a variable that no longer exists (stale contract)\n", id, o.Name, o.Result)
+				} else if baseline[o.Name] || reproduced {
 					nViol++
 					r.Status = "VIOLATION"
 					writeReplayDir(dir, o, reproduced)
